@@ -442,7 +442,8 @@ impl LLFree<'_> {
             },
             Err(Some(Reservation { row, free, .. })) => {
                 // Sync with global tree
-                if sync {
+                // (the reservation might also just be for a different tree than requested)
+                if sync && free < (1 << order) {
                     let min = (1 << order) - free;
                     if let Some(free) = self.trees.sync(row.as_tree(), min) {
                         if self.locals.put(class, local, row.as_tree(), free) {
